@@ -287,9 +287,10 @@ def retry_progress(prog, chk):
                 rv = st.get("rv") or {}
                 if rv.get("k") == "binop" and rv.get("op") in ("AddWithOverflow", "Add", "AddUnchecked"):
                     a, c2 = rv.get("a") or {}, rv.get("b") or {}
-                    pl = a.get("c") or a.get("m")
                     k = (c2.get("k") or {}).get("int") if isinstance(c2.get("k"), dict) else None
-                    if pl and pl[0] == 1 and pl[1] and pl[1][-1] == fld and isinstance(k, int) and k > 0:
+                    o = R.origin(sb, a, carriers={}) if a else ("?",)
+                    from_field = o[0] == "field" and o[1][0] == 1 and o[1][1] and o[1][1][-1] == fld
+                    if from_field and isinstance(k, int) and k > 0:
                         incr = True
             chk.ob(incr and not branches, "A7.retry-progress", f"{sb.short}:strict", sb.where(), f"{sb.short}() adds a positive constant to `{fld[1:]}` on every call", f"{sb.short}() does not advance `{fld[1:]}` on every call ({'conditional' if branches else 'no `+= constant`'}): resolving an element can go unnoticed and the elements waiting for it are reported as reference errors instead of being retried")
         for (bb, t, c) in sites:
@@ -369,12 +370,15 @@ def error_swallow(prog, chk):
     from props import strops
     _cnt, _where, edges, funcs = strops.survey(prog)
     known = strops.load_table()[1]
+    ren = strops.renames(prog, edges, funcs)  # a renamed function keeps its reviewed rows
+    ren_last = {k.split("::")[-1]: v.split("::")[-1] for k, v in ren.items()}
     callers = collections.defaultdict(set)
     for f, gs in edges.items():
         for g in gs:
             callers[g].add(f)
 
     def reviewed_owners(f):
+        f = ren.get(f, f)
         if f in known:
             return [f]
         out, seen, work = [], {f}, [f]
@@ -401,7 +405,8 @@ def error_swallow(prog, chk):
             f = st.fate.replace("transformed-", "")
             if not f.startswith("dropped"):
                 continue
-            k = (strip_closures(b.path), st.callee.path.split("::")[-1], f)
+            callee_last = st.callee.path.split("::")[-1]
+            k = (strip_closures(b.path), ren_last.get(callee_last, callee_last), f)
             ent = None
             for owner in reviewed_owners(k[0]):
                 e2 = allow.get((owner, k[1], klass(k[2])))
